@@ -201,7 +201,51 @@ pub fn plant(rng: &mut Rng, p: &G, extra_nodes: usize) -> (G, Vec<usize>) {
     (h, map)
 }
 
+/// a homomorphic, non-injective image of `p`: two nodes with compatible links are identified
+/// (an edge between them becomes a self-loop).  No embedding of `p` uses the merged node for
+/// both, so this is where a lost injectivity (not-equal) constraint shows.
+pub fn quotient(rng: &mut Rng, p: &G) -> Option<G> {
+    let live = p.live();
+    if live.len() < 2 {
+        return None;
+    }
+    for _ in 0..8 {
+        let u = *rng.pick(&live);
+        let v = *rng.pick(&live);
+        if u == v {
+            continue;
+        }
+        let (ui, uo) = p.nodes[u].unwrap();
+        let (vi, vo) = p.nodes[v].unwrap();
+        // ports of v must be free at u
+        let clash = p.links.iter().any(|l| (l.0 == v && p.out_link(u, l.1).is_some()) || (l.2 == v && p.in_link(u, l.3).is_some()));
+        if clash {
+            continue;
+        }
+        let mut h = p.clone();
+        h.nodes[u] = Some((ui.max(vi), uo.max(vo)));
+        h.nodes[v] = if rng.chance(1, 2) { None } else { Some((rng.below(2), rng.below(2))) };
+        for l in h.links.iter_mut() {
+            if l.0 == v {
+                l.0 = u;
+            }
+            if l.2 == v {
+                l.2 = u;
+            }
+        }
+        return Some(h);
+    }
+    None
+}
+
 pub fn gen_host(rng: &mut Rng, pats: &[(G, usize)]) -> G {
+    if !pats.is_empty() && rng.chance(1, 6) {
+        let (p, _) = rng.pick(pats).clone();
+        if let Some(q) = quotient(rng, &p) {
+            let extra = rng.below(2);
+            return plant(rng, &q, extra).0;
+        }
+    }
     if !pats.is_empty() && rng.chance(3, 4) {
         let (p, _) = rng.pick(pats).clone();
         let extra = rng.below(4);
